@@ -23,6 +23,17 @@ T32_GROUPS = [
     ('t32_dp_shifted_register', 'thumb_data_processing_shifted_register', 'dec_thumb_data_processing_shifted_register', 't32_dpsr_table', 't32_dpsr_env'),
     ('t32_dp_modified_immediate', 'thumb_data_processing_modified_immediate', 'dec_thumb_data_processing_modified_immediate', 't32_dpmi_table', 'no_env'),
     ('t32_plain_binary_immediate', 'thumb_data_processing_plain_binary_immediate', 'dec_thumb_data_processing_plain_binary_immediate', 't32_pbi_table', 'no_env'),
+    ('t32_load_store_multiple', 'thumb_load_store_multiple', 'dec_thumb_load_store_multiple', 't32_lsm_table', 'no_env'),
+    ('t32_dual_exclusive', 'thumb_load_store_dual_load_store_exclusive_table_branch', 'dec_thumb_load_store_dual_load_store_exclusive_table_branch', 't32_dual_table', 'no_env'),
+    ('t32_store_single', 'thumb_store_single_data_item', 'dec_thumb_store_single_data_item', 't32_sts_table', 'no_env'),
+    ('t32_load_word', 'thumb_load_word', 'dec_thumb_load_word', 't32_ldw_table', 'no_env'),
+    ('t32_load_halfword', 'thumb_load_halfword_memory_hints', 'dec_thumb_load_halfword_memory_hints', 't32_ldh_table', 'no_env'),
+    ('t32_dp_register', 'thumb_data_processing_register', 'dec_thumb_data_processing_register', 't32_dpr_table', 't32_dpr_env'),
+    ('t32_multiply', 'thumb_multiply_multiply_accumulate_and_absolute_difference', 'dec_thumb_multiply_multiply_accumulate_and_absolute_difference', 't32_mul_table', 'no_env'),
+    ('t32_long_multiply', 'thumb_long_multiply_long_multiply_accumulate_and_divide', 'dec_thumb_long_multiply_long_multiply_accumulate_and_divide', 't32_lmul_table', 'no_env'),
+    ('t32_parallel_signed', 'thumb_parallel_addition_and_subtraction_signed', 'dec_thumb_parallel_addition_and_subtraction_signed', 't32_pas_table', 'no_env'),
+    ('t32_parallel_unsigned', 'thumb_parallel_addition_and_subtraction_unsigned', 'dec_thumb_parallel_addition_and_subtraction_unsigned', 't32_pau_table', 'no_env'),
+    ('t32_misc_operations', 'thumb_miscellaneous_operations', 'dec_thumb_miscellaneous_operations', 't32_misc_table', 'no_env'),
 ]
 
 
@@ -52,6 +63,8 @@ def t32_cases(rng, tier):
                         if ch in '01':
                             words.append(w ^ (1 << (31 - k)))
         words += [rng.getrandbits(32) for _ in range(n)]
+        if label == 't32_load_halfword':          # the table covers Rt <> 1111 (the Rt = 1111 slots are preload hints)
+            words = [w if (w >> 12) & 15 != 15 else w ^ (1 << 12) for w in words]
         for w in words:
             model = f'(match {fn} {w} with Some c => [0; 1; c] | None => [0; 0] end)'
             spec = f'(enc_leaf_opt (lookup {table} (LRet None) {w}) {env} {w})'
@@ -72,7 +85,8 @@ OP_SPEC_IMPORTS = 'From ArmV Require Import Spec.Pseudocode.'
 def units():
     return [Unit('thumb16', ['C07_thumb16'], ['Proofs/Cube.v', 'Proofs/DecodeReify.v', 'Proofs/DecThumb16.v'], [], cases, IMPORTS, SPEC_IMPORTS),
             Unit('thumb32_groups', ['C07_thumb32_top', 'C07_thumb32_move_shift', 'C07_thumb32_dp_shifted_register',
-                                    'C07_thumb32_dp_modified_immediate', 'C07_thumb32_plain_binary_immediate'],
+                                    'C07_thumb32_dp_modified_immediate', 'C07_thumb32_plain_binary_immediate'] +
+                 ['C07_thumb32_' + s for s in ('lsm', 'dual', 'sts', 'ldw', 'dpr', 'mul', 'lmul', 'pas', 'pau', 'misc', 'ldh', 'ldb')],
                  ['Proofs/Cube.v', 'Proofs/DecodeReify.v', 'Proofs/DecThumb32.v'], [], t32_cases, IMPORTS,
                  SPEC_IMPORTS + '\nFrom ArmV Require Import Spec.DecTablesT32.'),
             Unit('operands', [], [], [], operand_cases, OP_IMPORTS, OP_SPEC_IMPORTS)]
